@@ -14,7 +14,12 @@ LEVEL_TEXT = ("Proved in Lean for ALL sizes, about the definitions generated fro
               "(with and without A.2; the ceiling is exact because the numerator is 48 x count), the CSD closed form, the "
               "_cnot_count_iso recurrence with A.2 for every iso>=1, the column-by-column double loop for every (n, m), and the "
               "low-rank phase-by-phase sum for every n, partition size, rank and scheme (ccd/csd x qsd/csd) each equal the structural "
-              "count cnotsOf of the modelled circuit shape; _a/_b/_k_s are shift, remainder and bit. Tied each run: every generated "
+              "count cnotsOf of the modelled circuit shape; _a/_b/_k_s are shift, remainder and bit. Link to the correctness models "
+              "(Props/C10Link.lean, all n, every kernel tape): the gate lists of the C02 model of build_unitary (qsd, csd, qsd in "
+              "isometry mode: the lists C02_qsd_full / C02_csd_full / C02_qsd_iso_full prove to denote the input matrix) and the "
+              "schedule of the C03 model of _ccd (m<=n) are, object for object with the same control counts, the shapes the estimates "
+              "are proved against, so each generated closed form equals the Prim.cost count of the circuit proved correct; the QSD "
+              "list has 4^(n-2) two-qubit leaves; the ucr gate list has 2^k entanglers (2^k-1 without the last). Tied each run: every generated "
               "function vs its Python original on an exhaustive small range (closed forms to n=26); the shape models vs the "
               "instruction structure of the real circuits (build_unitary, _ccd) and the dispatch of the real low-rank recursion; the "
               "per-object CNOT cost table and the effect of _apply_a2 vs transpile. Tested only: transpiled CNOT count of the real "
@@ -23,8 +28,9 @@ LEVEL_TEXT = ("Proved in Lean for ALL sizes, about the definitions generated fro
 LEVEL_NOTE = ("Trusted: Lean kernel; tools/py2lean.py (kept honest by the second tie); qiskit's transpile/UCGate/UCRZ/UCRY/"
               "DiagonalGate/_apply_a2/two-qubit synthesis cost table (validated numerically each run, generic inputs); numpy SVD rank "
               "of generic inputs; the hand shape models agree with the code beyond the explored sizes by uniformity of the recursion.")
-LEAN_TARGETS = ["QclibModel.Props.C10"]
-THEOREMS = ["Qclib.C10_qsd", "Qclib.C10_csd", "Qclib.C10_iso", "Qclib.C10_ccd", "Qclib.C10_lowrank", "Qclib.C10_bits"]
+LEAN_TARGETS = ["QclibModel.Props.C10", "QclibModel.Props.C10Link"]
+THEOREMS = ["Qclib.C10_qsd", "Qclib.C10_csd", "Qclib.C10_iso", "Qclib.C10_ccd", "Qclib.C10_lowrank", "Qclib.C10_bits",
+            "Qclib.C10_link_qsd", "Qclib.C10_link_csd", "Qclib.C10_link_iso", "Qclib.C10_link_ccd", "Qclib.C10_link_ucr"]
 TRUSTED = [
     "tools/py2lean.py translation of unitary._cnot_count_estimate/_cnot_count_iso/_cnot_count_iso_qsd, isometry._a/_b/_k_s/"
     "_cnot_count_estimate_ccd, lowrank._default_partition, entanglement._to_qubits (differentially tied each run)",
@@ -36,7 +42,9 @@ TRUSTED = [
 ASSUMPTIONS = ["general position (Haar-random complex inputs); Knill scheme and the m=n column-by-column upper bound are tested, not proved"]
 RULE = ("tie: (function, argument tuple) for the generated functions; (decomposition, n, iso) / (n, m) / (n, p, e, schemes) for "
         "shapes; (object, k) for costs.  oracle: distinct (call, options, size) on which estimate, transpiled circuit and structural "
-        "count were compared; non-trivial = at least 3 qubits (2 for isometries/state preparation)")
+        "count were compared; non-trivial = at least 3 qubits (2 for isometries/state preparation).  diversity: the same comparison per "
+        "(entry point, options, size, value kind, container/dtype form), each evaluated through every call form; structured / real value "
+        "kinds only for exceptions and shape-only estimates")
 DRIVER = "Drivers/C10.lean"
 
 import framework  # noqa: E402
@@ -321,6 +329,563 @@ def job_prim(kind, k, seed):
     return {"cx": cx_count(c)}
 
 
+# --------------------------------------------------------------------------------------------------
+# input-diversity pass: the FORM of otherwise ordinary inputs (worker side: job_div)
+# --------------------------------------------------------------------------------------------------
+#
+# The property is stated for inputs in general position.  The ESTIMATE depends only on shapes and options (low-rank: plus
+# the numerical Schmidt rank), the COUNT of the synthesised circuit is only claimed for generic complex input.  Hence two classes:
+#   (i)  forms that keep the input generic-complex -> estimate == count (upper bound for ccd on a full unitary), the library's
+#        own method='exact' == count, every call form gives the same estimate, structural count of the Lean model == count;
+#   (ii) structured / real inputs ("diversity:...:outside-equality") -> both functions return without an undocumented
+#        exception, estimate == estimate of the complex128 ndarray with the same values, for unitary / isometry ccd|csd also
+#        == estimate of a generic input of the same shape and options (shape-only), ccd full unitary: estimate >= count.
+# Forms the library does not claim (lists for the ndarray-typed unitary/isometry functions, a (2^n,1) column for
+# LowRankInitialize) may raise AttributeError / TypeError ("unsupported-form-raises-..."), reduced precision (complex64) may be
+# rejected with the documented ValueError; anything else raised is a failure.  If such a form is accepted the value is checked.
+#
+# form x entry point -> where generated (diversity_cases -> job_div -> evaluate_div / diversity_ties; all in BOTH tiers)
+#   1 element types, class (i)
+#       unitary.cnot_count / _cnot_count_estimate / unitary():  DIV_UNITARY_VARIANTS haar x {F, view, list, tuple, npscalars, c64},
+#           n = 1, 2 x EVERY dec x a2 x iso = 0..n; n = 3 every in-scope option; n = 4 two variants per option (div_unitary_cases)
+#       isometry.cnot_count / _cnot_count_estimate / decompose():  m >= 1: DIV_ISOMETRY_2D_VARIANTS {F, view, list, c64};
+#           m = 0: DIV_ISOMETRY_VEC_VARIANTS 1-D {nd, view, list, tuple, npscalars, c64} AND (2^n,1) column {col, col-view, col-c64},
+#           n = 1..3 x m = 0..n x ccd / csd / knill, n = 4 rotating (div_isometry_cases)
+#       lowrank.cnot_count / LowRankInitialize:  DIV_LOWRANK_VARIANTS gauss x {nd, col, col-view, list, tuple, npscalars, c64, col-c64,
+#           view}, n = 1..4 x (ccd,qsd),(csd,csd), n = 5 alternating, n = 6 a few (div_lowrank_cases A)
+#   1 element types, class (ii)  int-perm {int64, int list}, real-orth {f64, cz0, negzero}, diag-pm (matrices, and [:, :2^m]);
+#           int-basis {int list, int64, f32}, real {f64, f64 list, cz0, negzero, negzero list}, neg-real, imag, uniform, sparse,
+#           one-subtree (vectors: isometry m = 0 as 1-D and column, lowrank)
+#   2 scale   unitary: n/a.  isometry m = 0 and lowrank: eqmod (equal moduli, generic phases), headtail-{start,end,mixed}-{2.5,3}
+#           (tails 10^-2.5 / 10^-3: class (i)); headtail-*-{5,6} (class (ii): within qiskit's 1 - 1e-9 Weyl specialisation).
+#           lowrank only (div_lowrank_cases B, n = 3..6, two or three cuts each): Schmidt spectra with Haar Schmidt vectors
+#           tail-above / tail-mixed (light tail above the 1e-7 cut, full rank) / tail-below / rank1-tail (tail a factor >= 50 below the
+#           cut: reduced rank - the estimate must follow the rank the construction uses) / repeat / repeat-pairs (class (ii))
+#   3 phase   -U, iU, D1 U D2 (unit phases) on unitaries and isometries; -v, iv, per-entry unit phases on generic moduli on vectors
+#   4 call forms   EVERY job evaluates the estimate through: positional / keyword / keyword-shuffled / only-non-defaults /
+#           the private _cnot_count_estimate positional and keyword (unitary, isometry); positional (with and without svd) /
+#           keyword / only-non-defaults (lowrank).  method='exact' and the public constructor rotate through their call forms
+#           (unitary(), decompose(): positional / keyword / defaults;  LowRankInitialize: opt_params full / partial / None / {} /
+#           label=, static initialize(qubits=None | list | permuted non-contiguous qubits of a larger host)).
+#           div_lowrank_cases C (n = 3..6): every option alone, all non-default at once, lr int | np.int64 on both sides of each
+#           power of two and out of range (-1, max+1: documented "ignored"), every partition size as list | tuple | reversed |
+#           rotated tuple | list of np.int64, svd 'regular' | 'randomized' (lr = 2), iso_scheme knill.
+#           D (job_div_host, n = 2..5): one opt_params dict reused for two constructions with its contents replaced in between
+#           (and not mutated by the library), copy() before .definition is first read, inverse(), the same gate appended twice,
+#           Qubit objects on hosts built from two registers in both orders, register slices, to_gate() / to_instruction().
+#           Every job also checks that the caller's array / list / partition object is unchanged afterwards.
+#   5 sizes   n = 1 and n = 2 explicitly for every function x scheme x method x iso x form (A-lists above); every partition size at
+#           n = 3..6 with lr in {max/2, max/2+1, max, max+1} (C).
+# Tie: the (shape, option) tuples of the class-(i) cases go to the driver ops unitary / isometry / lowrank (count of the REAL
+# circuit built from the diverse input vs structural count of the model; low-rank B and C: estimate, estimate leaves and
+# construction dispatch as in shape_ties, incl. the reduced-rank tuples of the light-tail spectra).  The forms themselves (dtype,
+# container, layout, call form, host placement) are not modelled: oracle only.
+
+DIV_LISTLIKE = ("list", "tuple", "npscalars", "int-list", "f64-list", "negzero-list")
+DIV_C64 = ("c64", "col-c64")
+DIV_STRUCT_MAT = ("int-perm", "real-orth", "diag-pm")
+DIV_STRUCT_VEC = ("int-basis", "real", "neg-real", "imag", "uniform", "sparse", "one-subtree")
+DIV_SPECTRA = {
+    "tail-above": [1.0, 0.5, 1e-3, 1e-4],       # all four Schmidt coefficients above the 1e-7 cut: full rank
+    "tail-mixed": [1.0, 1e-3, 1e-5, 1e-6],      # one heavy coefficient, light tail still above the cut
+    "tail-below": [1.0, 0.6, 1e-9, 1e-10],      # tail far below the cut: the rank halves
+    "rank1-tail": [1.0, 1e-9, 1e-10, 1e-11],    # numerically a product state
+    "repeat": [0.5, 0.5, 0.5, 0.5],             # exactly repeated coefficients: outside the equality claim, see div_class
+    "repeat-pairs": [0.7, 0.7, 0.1, 0.1],
+}
+DIV_SPECTRUM_EXT = [0.45, 0.35, 0.4, 0.5]       # second half of an 8-entry spectrum = first half times these
+HEADTAIL_GENERIC_MAX_EXPONENT = 3.2               # tails 10^-2.5, 10^-3: generic; 10^-5, 10^-6: outside the equality claim
+RANK_CUT_BAND = (1e-7 / 3, 3e-7)                # generated Schmidt coefficients stay outside this band around the 1e-7 cut
+
+
+def div_class(spec):
+    """'structured' = outside the equality claim (class (ii)).  Heavy head + light tail amplitudes count as generic only while
+    tail^2 stays well above 1e-9: qiskit's two-qubit Weyl decomposition snaps a block that is within fidelity 1 - 1e-9 of a
+    cheaper class onto it (cf. K-C02-1), so tails of 1e-5 / 1e-6 legitimately lose a CNOT (seen: n=3, 4x2 leaf, 2 instead of 3)."""
+    kind = spec["kind"]
+    if kind.startswith("schmidt:repeat"):
+        # exactly repeated Schmidt coefficients: LAPACK resolves the degenerate subspace arbitrarily (for [.5,.5,.5,.5] the
+        # separation matrix is a scaled unitary W and the SVD returns W x identity), so a Schmidt factor can come out
+        # non-generic (seen: n=4, one 4x4 factor synthesised with 2 CNOTs, estimate 8 vs circuit 7), and the singular-value
+        # vector is a product state (estimate 8 = circuit 8 vs 9 for the model's general-position shape)
+        return "structured"
+    if kind.startswith("headtail"):
+        return "structured" if float(kind.split("-")[2]) > HEADTAIL_GENERIC_MAX_EXPONENT else "generic"
+    return "structured" if kind in DIV_STRUCT_MAT + DIV_STRUCT_VEC else "generic"
+
+
+def div_matrix(kind, n, seed):
+    import numpy as np
+    dim = 2 ** n
+    r = np.random.default_rng(seed)
+    if kind == "haar":
+        return haar(dim, seed)
+    if kind == "phase-1":
+        return -haar(dim, seed)
+    if kind == "phase-i":
+        return 1j * haar(dim, seed)
+    if kind == "unit-phases":
+        return (np.exp(1j * r.uniform(0, 2 * np.pi, dim))[:, None] * haar(dim, seed)) * np.exp(1j * r.uniform(0, 2 * np.pi, dim))[None, :]
+    if kind == "int-perm":
+        return np.eye(dim, dtype=np.int64)[r.permutation(dim)]
+    if kind == "real-orth":
+        q, t = np.linalg.qr(r.normal(size=(dim, dim)))
+        return q * np.sign(np.diag(t))
+    if kind == "diag-pm":
+        return np.diag([(-1.0) ** ((k * (k + 1)) // 2) for k in range(dim)])
+    raise ValueError(kind)
+
+
+def state_from_schmidt(n, part, spectrum, seed):
+    """generic Schmidt vectors (Haar) with prescribed coefficients across the cut `part` (own implementation of the
+    index convention of entanglement._separation_matrix; job_div re-reads the coefficients from the real code's matrix)"""
+    import numpy as np
+    p = len(part)
+    u, v = haar(2 ** (n - p), seed), haar(2 ** p, seed + 1)
+    s = np.array(spectrum, dtype=float)
+    s = s / np.linalg.norm(s)
+    k = len(s)
+    mat = (u[:, :k] * s) @ v[:k, :]
+    return np.moveaxis(mat.reshape([2] * n), list(range(n - p, n)), sorted(part)).reshape(-1)
+
+
+def div_spectrum(tag, maxr):
+    s = list(DIV_SPECTRA[tag])
+    if maxr == 2:
+        return [s[0], s[-1] if tag in ("tail-above", "tail-mixed") else s[1] if tag.startswith("repeat") else s[2]]
+    if maxr >= 8:
+        s = s + [a * b for a, b in zip(s, DIV_SPECTRUM_EXT)] if not tag.startswith("repeat") else s + [0.4 * a for a in s]
+    return s
+
+
+def div_state(kind, n, seed, part=None):
+    import numpy as np
+    dim = 2 ** n
+    r = np.random.default_rng(seed)
+    g = rand_state(dim, seed)
+    if kind == "gauss":
+        return g
+    if kind == "phase-1":
+        return -g
+    if kind == "phase-i":
+        return 1j * g
+    if kind == "unit-phases":
+        return np.abs(g) * np.exp(1j * r.uniform(0, 2 * np.pi, dim))
+    if kind == "eqmod":
+        return np.exp(1j * r.uniform(0, 2 * np.pi, dim)) / np.sqrt(dim)
+    if kind.startswith("headtail"):
+        _, pos, tail = kind.split("-")          # headtail-start-3: tail amplitudes 1e-3 (generic complex)
+        v = (r.normal(size=dim) + 1j * r.normal(size=dim)) * 10.0 ** (-float(tail))
+        idx = {"start": [0, 1], "end": [dim - 1, dim - 2], "mixed": [1 % dim, dim - 2]}[pos]
+        for i in sorted(set(idx))[: max(1, min(2, dim // 2))]:
+            v[i] = r.normal() + 1j * r.normal() + 0.5
+        return v / np.linalg.norm(v)
+    if kind.startswith("schmidt:"):
+        p = len(part)
+        return state_from_schmidt(n, part, div_spectrum(kind.split(":")[1], 2 ** min(p, n - p)), seed)
+    if kind == "int-basis":
+        e = np.zeros(dim, dtype=np.int64)
+        e[seed % dim] = 1
+        return e
+    if kind in ("real", "neg-real", "imag"):
+        x = r.normal(size=dim)
+        x = x / np.linalg.norm(x)
+        return x if kind == "real" else -np.abs(x) if kind == "neg-real" else 1j * x
+    if kind == "uniform":
+        return np.ones(dim) / np.sqrt(dim)
+    if kind == "sparse":
+        x = np.zeros(dim)
+        x[seed % dim] = 0.6
+        x[(seed % dim + 1 + (seed // 7) % (dim - 1)) % dim] = -0.8
+        return x
+    if kind == "one-subtree":       # the whole norm is carried by the first quarter (half for n = 1)
+        k = max(1, dim // 4)
+        x = np.zeros(dim, dtype=complex)
+        x[:k] = rand_state(k, seed) if k > 1 else 1j
+        return x
+    raise ValueError(kind)
+
+
+def div_form(x, form):
+    """the SAME values in another container / dtype / memory layout"""
+    import numpy as np
+    a = np.asarray(x)
+    if form == "nd":
+        return np.ascontiguousarray(a.astype(complex))
+    if form == "F":
+        return np.asfortranarray(a.astype(complex))
+    if form in ("view", "col-view"):
+        if form == "col-view":
+            a = a.reshape(-1, 1)
+        big = np.zeros(tuple(2 * k for k in a.shape), dtype=complex) + 7.0
+        sl = tuple(slice(None, None, 2) for _ in a.shape)
+        big[sl] = a
+        return big[sl]
+    if form == "list":
+        return a.astype(complex).tolist()
+    if form == "tuple":
+        return tuple(tuple(row) for row in a.astype(complex).tolist()) if a.ndim == 2 else tuple(a.astype(complex).tolist())
+    if form == "npscalars":
+        return [[np.complex128(v) for v in row] for row in a] if a.ndim == 2 else [np.complex128(v) for v in a]
+    if form == "c64":
+        return a.astype(np.complex64)
+    if form == "col":
+        return np.ascontiguousarray(a.astype(complex)).reshape(-1, 1)
+    if form == "col-c64":
+        return a.astype(np.complex64).reshape(-1, 1)
+    if form == "int64":
+        return np.rint(a.real).astype(np.int64)
+    if form == "int-list":
+        return np.rint(a.real).astype(np.int64).tolist()
+    if form == "f64":
+        return np.ascontiguousarray(a.real.astype(np.float64))
+    if form == "f64-list":
+        return a.real.astype(np.float64).tolist()
+    if form == "f32":           # only used for exactly representable values (basis states)
+        return a.real.astype(np.float32)
+    if form == "cz0":           # complex dtype, imaginary parts exactly +0.0
+        return a.real.astype(np.float64).astype(complex)
+    if form in ("negzero", "negzero-list"):     # complex dtype, imaginary parts -0.0, real zeros -0.0
+        re = a.real.astype(np.float64).copy()
+        re[re == 0] = -0.0
+        out = np.empty(a.shape, dtype=complex)
+        out.real = re
+        out.imag = -0.0
+        return out if form == "negzero" else [complex(v.real, -0.0) for v in out]
+    raise ValueError(form)
+
+
+def _snap(x):
+    import copy
+    import numpy as np
+    return x.copy() if isinstance(x, np.ndarray) else copy.deepcopy(x)
+
+
+def _unchanged(x, snap):
+    import numpy as np
+    if isinstance(x, np.ndarray):
+        return x.dtype == snap.dtype and x.shape == snap.shape and bool(np.array_equal(x, snap))
+    return type(x) is type(snap) and repr(x) == repr(snap)
+
+
+def _try(fn):
+    try:
+        return int(fn())
+    except Exception as e:  # noqa: BLE001
+        return "EXC " + _exc(e)
+
+
+def _nondefault(defaults, **kw):
+    """only the arguments that differ from the documented defaults (the others are left to the callee's defaults)"""
+    out = {}
+    for k, v in kw.items():
+        d = defaults[k]
+        if d is None:
+            same = v is None
+        else:
+            same = v is not None and not isinstance(v, (list, tuple)) and bool(v == d)
+        if not same:
+            out[k] = v
+    return out
+
+
+def div_unitary(spec):
+    import numpy as np
+    import qclib.unitary as qu
+    n, dec, iso, a2, rot = spec["n"], spec["dec"], spec["iso"], spec["a2"], spec.get("rot", 0)
+    base = div_matrix(spec["kind"], n, spec["seed"])
+    ref = np.ascontiguousarray(np.asarray(base).astype(complex))
+    x = div_form(base, spec["form"])
+    snap = _snap(x)
+    dfl = {"decomposition": "qsd", "method": "estimate", "iso": 0, "apply_a2": True}
+    calls = {
+        "pos": lambda g, mt: qu.cnot_count(g, dec, mt, iso, a2),
+        "kw": lambda g, mt: qu.cnot_count(gate=g, decomposition=dec, method=mt, iso=iso, apply_a2=a2),
+        "kw-shuffled": lambda g, mt: qu.cnot_count(g, apply_a2=a2, iso=iso, method=mt, decomposition=dec),
+        "default": lambda g, mt: qu.cnot_count(g, **_nondefault(dfl, decomposition=dec, method=mt, iso=iso, apply_a2=a2)),
+    }
+    ctors = {
+        "pos": lambda g: qu.unitary(g, dec, iso, a2),
+        "kw": lambda g: qu.unitary(gate=g, decomposition=dec, iso=iso, apply_a2=a2),
+        "default": lambda g: qu.unitary(g, **_nondefault(dfl, decomposition=dec, iso=iso, apply_a2=a2)),
+    }
+    res = {"est": {c: _try(lambda: f(x, "estimate")) for c, f in calls.items()}}
+    res["est"]["private-pos"] = _try(lambda: qu._cnot_count_estimate(x, dec, iso, a2))
+    res["est"]["private-kw"] = _try(lambda: qu._cnot_count_estimate(x, **_nondefault(dfl, decomposition=dec, iso=iso, apply_a2=a2)))
+    cname = list(calls)[rot % len(calls)]
+    kname = list(ctors)[rot % len(ctors)]
+    res["exact_call"], res["ctor_call"] = cname, kname
+    if n <= EXACT_NMAX_UNITARY:
+        res["exact"] = _try(lambda: calls[cname](x, "exact"))
+    res["cx"] = _try(lambda: cx_count(ctors[kname](x)))
+    if isinstance(res["cx"], str):
+        res["cx_ref"] = _try(lambda: cx_count(qu.unitary(ref.copy(), dec, iso, a2)))
+    res["est_ref"] = _try(lambda: qu.cnot_count(ref.copy(), dec, "estimate", iso, a2))
+    res["est_generic"] = _try(lambda: qu.cnot_count(haar(2 ** n, spec["seed"] + 1), dec, "estimate", iso, a2))
+    res["input_unchanged"] = _unchanged(x, snap)
+    return res
+
+
+def div_isometry(spec):
+    import numpy as np
+    import qclib.isometry as qi
+    n, m, scheme, rot, shape = spec["n"], spec["m"], spec["scheme"], spec.get("rot", 0), spec.get("shape", "2d")
+    if shape == "2d":
+        base = np.asarray(div_matrix(spec["kind"], n, spec["seed"]))[:, : 2 ** m]
+        generic = haar(2 ** n, spec["seed"] + 1)[:, : 2 ** m].copy()
+    else:       # m = 0 handed over as a 1-D vector or (through the col* forms) as a (2^n, 1) column
+        base = div_state(spec["kind"], n, spec["seed"])
+        generic = rand_state(2 ** n, spec["seed"] + 1)
+    ref = np.ascontiguousarray(np.asarray(base).astype(complex))
+    x = div_form(base, spec["form"])
+    if shape == "col" and isinstance(x, np.ndarray) and x.ndim == 1:
+        x = x.reshape(-1, 1)            # dtype-preserving column (int64 / f64 / ... forms)
+    snap = _snap(x)
+    dfl = {"scheme": "ccd", "method": "estimate"}
+    calls = {
+        "pos": lambda g, mt: qi.cnot_count(g, scheme, mt),
+        "kw": lambda g, mt: qi.cnot_count(isometry=g, scheme=scheme, method=mt),
+        "default": lambda g, mt: qi.cnot_count(g, **_nondefault(dfl, scheme=scheme, method=mt)),
+    }
+    ctors = {
+        "pos": lambda g: qi.decompose(g, scheme),
+        "kw": lambda g: qi.decompose(isometry=g, scheme=scheme),
+        "default": lambda g: qi.decompose(g, **_nondefault(dfl, scheme=scheme)),
+    }
+    res = {"est": {c: _try(lambda: f(x, "estimate")) for c, f in calls.items()}}
+    res["est"]["private-pos"] = _try(lambda: qi._cnot_count_estimate(x, scheme))
+    res["est"]["private-kw"] = _try(lambda: qi._cnot_count_estimate(x, **_nondefault(dfl, scheme=scheme)))
+    cname = list(calls)[rot % len(calls)]
+    kname = list(ctors)[rot % len(ctors)]
+    res["exact_call"], res["ctor_call"] = cname, kname
+    if n <= EXACT_NMAX_ISOMETRY:
+        res["exact"] = _try(lambda: calls[cname](x, "exact"))
+    res["cx"] = _try(lambda: cx_count(ctors[kname](x)))
+    if isinstance(res["cx"], str):
+        res["cx_ref"] = _try(lambda: cx_count(qi.decompose(ref.copy(), scheme)))
+    res["est_ref"] = _try(lambda: qi.cnot_count(ref.copy(), scheme, "estimate"))
+    res["est_generic"] = _try(lambda: qi.cnot_count(generic, scheme, "estimate"))
+    res["input_unchanged"] = _unchanged(x, snap)
+    return res
+
+
+def _div_partition(part, pform):
+    import numpy as np
+    if part is None:
+        return None
+    p = sorted(part)
+    if pform == "list":
+        return list(p)
+    if pform == "tuple":
+        return tuple(p)
+    if pform == "reversed":
+        return list(p[::-1])
+    if pform == "rotated-tuple":
+        return tuple(p[1:] + p[:1])
+    if pform == "npints":
+        return [np.int64(q) for q in p]
+    raise ValueError(pform)
+
+
+class _LrRecorder:
+    """records the leaves of the estimate recursion and of the construction (as job_lowrank does), behaviour unchanged"""
+
+    def __init__(self, lrmod):
+        self.m, self.enc, self.leaves = lrmod, [], []
+
+    def __enter__(self):
+        import numpy as np
+        m = self.m
+        self.orig = orig = (m.decompose_isometry, m.decompose_unitary, m.cnots_isometry, m.cnots_unitary)
+
+        def lg(v):
+            return int(round(np.log2(v)))
+
+        def w_dec_iso(data, scheme="ccd"):
+            c = orig[0](data, scheme=scheme)
+            self.enc.append(["iso %s %d %d" % (scheme, lg(data.shape[0]), lg(data.shape[1])),
+                             bool(np.abs(np.imag(data)).max() < 1e-12), cx_count(c)])
+            return c
+
+        def w_dec_uni(data, decomposition="qsd"):
+            c = orig[1](data, decomposition=decomposition)
+            self.enc.append(["uni %s %d" % (decomposition, lg(data.shape[0])), bool(np.abs(np.imag(data)).max() < 1e-12), cx_count(c)])
+            return c
+
+        def w_est_iso(data, scheme="ccd", method="estimate"):
+            r = orig[2](data, scheme=scheme, method=method)
+            self.leaves.append(["iso %s %d %d" % (scheme, lg(data.shape[0]), lg(data.shape[1])), int(r)])
+            return r
+
+        def w_est_uni(data, decomposition="qsd", method="estimate"):
+            r = orig[3](data, decomposition=decomposition, method=method)
+            self.leaves.append(["uni %s %d" % (decomposition, lg(data.shape[0])), int(r)])
+            return r
+
+        m.decompose_isometry, m.decompose_unitary, m.cnots_isometry, m.cnots_unitary = w_dec_iso, w_dec_uni, w_est_iso, w_est_uni
+        return self
+
+    def __exit__(self, *a):
+        m = self.m
+        m.decompose_isometry, m.decompose_unitary, m.cnots_isometry, m.cnots_unitary = self.orig
+        return False
+
+
+def div_lowrank(spec):
+    import numpy as np
+    import qclib.state_preparation.lowrank as lrmod
+    from qclib.entanglement import schmidt_decomposition, _to_qubits, _separation_matrix
+    from qiskit import QuantumCircuit
+    n, lr, iso, uni, rot = spec["n"], spec.get("lr", 0), spec.get("iso", "ccd"), spec.get("uni", "qsd"), spec.get("rot", 0)
+    svd = spec.get("svd", "auto")
+    part0 = spec.get("part")
+    base = div_state(spec["kind"], n, spec["seed"], part0)
+    ref = np.ascontiguousarray(np.asarray(base).astype(complex))
+    x = div_form(base, spec["form"])
+    if spec.get("lrform") == "np.int64":
+        lr = np.int64(lr)
+    part = _div_partition(part0, spec.get("pform", "list"))
+    snap, psnap = _snap(x), _snap(part)
+    res = {}
+    pdef = sorted(part0) if part0 is not None else lrmod._default_partition(n)
+    if n >= 2:      # keep away from the rank cut (the band has its own boundary cases)
+        sv = np.linalg.svd(_separation_matrix(n, ref, pdef), compute_uv=False)
+        sv = sv / np.linalg.norm(sv)
+        if any(RANK_CUT_BAND[0] < s < RANK_CUT_BAND[1] for s in sv):
+            return {"skipped": "schmidt coefficient inside the excluded band around the 1e-7 rank cut"}
+        res["schmidt"] = [float("%.3g" % s) for s in sv[:8]]
+    dfl = {"low_rank": 0, "isometry_scheme": "ccd", "unitary_scheme": "qsd", "partition": None, "method": "estimate", "svd": "auto"}
+    calls = {
+        "pos": (lambda g, mt: lrmod.cnot_count(g, lr, iso, uni, part, mt, svd)) if (svd != "auto" or rot % 2) else
+               (lambda g, mt: lrmod.cnot_count(g, lr, iso, uni, part, mt)),
+        "kw": lambda g, mt: lrmod.cnot_count(state_vector=g, low_rank=lr, isometry_scheme=iso, unitary_scheme=uni, partition=part,
+                                             method=mt, svd=svd),
+        "default": lambda g, mt: lrmod.cnot_count(g, **_nondefault(dfl, low_rank=lr, isometry_scheme=iso, unitary_scheme=uni,
+                                                                   partition=part, method=mt, svd=svd)),
+    }
+    full = {"lr": lr, "iso_scheme": iso, "unitary_scheme": uni, "partition": part, "svd": svd}
+    partial = _nondefault({"lr": 0, "iso_scheme": "ccd", "unitary_scheme": "qsd", "partition": None, "svd": "auto"}, **full)
+
+    def on_host(g, qubits, extra):
+        host = QuantumCircuit(n + extra)
+        lrmod.LowRankInitialize.initialize(host, g, qubits=qubits, opt_params=dict(partial))
+        return host
+
+    perm = [(3 * k + 1) % (n + 2) for k in range(n + 2)] if (n + 2) % 3 else [(5 * k + 2) % (n + 2) for k in range(n + 2)]
+    ctors = {
+        "opt-full": lambda g: lrmod.LowRankInitialize(g, opt_params=dict(full)).definition,
+        "opt-partial": lambda g: lrmod.LowRankInitialize(g, opt_params=(dict(partial) if partial or rot % 2 else None)).definition,
+        "opt-full-label": lambda g: lrmod.LowRankInitialize(g, label="psi", opt_params=dict(full)).definition,
+        "static-qubits-none": lambda g: on_host(g, None, 0),
+        "static-qubits-list": lambda g: on_host(g, list(range(n)), 0),
+        "static-permuted-larger-host": lambda g: on_host(g, perm[:n], 2),
+    }
+    res["est"] = {c: _try(lambda: f(x, "estimate")) for c, f in calls.items()}
+    cname = list(calls)[rot % len(calls)]
+    kname = list(ctors)[rot % len(ctors)]
+    res["exact_call"], res["ctor_call"] = cname, kname
+    if n <= EXACT_NMAX_LOWRANK and iso != "knill":
+        res["exact"] = _try(lambda: calls[cname](x, "exact"))
+    res["cx"] = _try(lambda: cx_count(ctors[kname](x)))
+    if isinstance(res["cx"], str):
+        res["cx_ref"] = _try(lambda: cx_count(lrmod.LowRankInitialize(ref.copy(), opt_params=dict(full)).definition))
+    res["est_ref"] = _try(lambda: lrmod.cnot_count(ref.copy(), int(lr), iso, uni, None if part0 is None else sorted(part0), "estimate", svd))
+    res["input_unchanged"] = _unchanged(x, snap) and _unchanged(part, psnap)
+    cx = res["cx"] if not isinstance(res["cx"], str) else res.get("cx_ref")
+    est = res["est"]["pos"]
+    if n >= 2 and svd != "randomized":
+        rank = schmidt_decomposition(ref.copy(), list(pdef), rank=int(lr))[0]
+        res["p"], res["rank"], res["e"] = len(pdef), int(rank), int(_to_qubits(rank))
+    if n >= 2 and iso != "knill" and "p" in res and not isinstance(est, str) and not isinstance(cx, str) and (spec.get("record") or est != cx):
+        # leaves of both recursions (for the shape tie, and to classify a difference exactly as eval_lowrank does)
+        with _LrRecorder(lrmod) as rec:
+            e2 = _try(lambda: lrmod.cnot_count(ref.copy(), int(lr), iso, uni, None if part0 is None else sorted(part0), "estimate", svd))
+            c2 = _try(lambda: cx_count(lrmod.LowRankInitialize(ref.copy(), opt_params=dict(full, lr=int(lr), partition=None if part0 is None else sorted(part0))).definition))
+        if e2 == res["est_ref"] and c2 == cx:
+            res["enc"], res["est_leaves"] = rec.enc, rec.leaves
+    return res
+
+
+def job_div_host(spec):
+    """object / host forms of LowRankInitialize on one generic state: every entry is (name, expected CNOTs, observed)"""
+    import copy
+    import numpy as np
+    import qclib.state_preparation.lowrank as lrmod
+    from qiskit import QuantumCircuit, QuantumRegister
+    n, seed = spec["n"], spec["seed"]
+    v = rand_state(2 ** n, seed)
+    lri = lrmod.LowRankInitialize
+    out = []
+
+    def rec(name, want, fn):
+        out.append([name, want, _try(fn)])
+
+    lr_b = 2 if n >= 4 else 0
+    pa, pb = [n - 1], [0, n - 1][: max(1, n // 2)]
+    est_a = int(lrmod.cnot_count(v, 1, "ccd", "qsd", pa))
+    est_b = int(lrmod.cnot_count(v, lr_b, "csd", "csd", pb))
+    # the SAME dict object for two constructions, contents replaced in between; definitions built afterwards
+    opt = {"lr": 1, "partition": list(pa)}
+    g1 = lri(v.copy(), opt_params=opt)
+    opt["lr"], opt["partition"], opt["iso_scheme"], opt["unitary_scheme"] = lr_b, list(pb), "csd", "csd"
+    keep = copy.deepcopy(opt)
+    g2 = lri(v.copy(), opt_params=opt)
+    rec("dict-reuse:first", est_a, lambda: cx_count(g1.definition))
+    rec("dict-reuse:second", est_b, lambda: cx_count(g2.definition))
+    out.append(["dict-reuse:caller-dict-unchanged", 1, int(opt == keep)])
+    # copy taken BEFORE .definition is first read, then both used
+    g3 = lri(v.copy(), opt_params=dict(keep))
+    g3c = g3.copy()
+    rec("copy-before-definition:copy", est_b, lambda: cx_count(g3c.definition))
+    rec("copy-before-definition:original", est_b, lambda: cx_count(g3.definition))
+    rec("inverse", est_b, lambda: cx_count(g3.inverse().definition))
+    rec("definition.to_gate", est_b, lambda: cx_count(g3.definition.to_gate().definition))
+    rec("definition.to_instruction", est_b, lambda: cx_count(g3.definition.to_instruction().definition))
+    # the same gate object appended twice on a larger host, permuted non-contiguous qubits
+    w = n + 2
+    perm1 = [(3 * k + 1) % w for k in range(w)] if w % 3 else [(5 * k + 2) % w for k in range(w)]
+    perm2 = perm1[::-1]
+
+    def twice():
+        h = QuantumCircuit(w)
+        h.append(g3, perm1[:n])
+        h.append(g3, perm2[:n])
+        return cx_count(h)
+    rec("same-gate-appended-twice", 2 * est_b, twice)
+    # Qubit objects / register slices on a host built from two registers in either order
+    qa, qb = QuantumRegister(n // 2 + 1, "a"), QuantumRegister(n - n // 2 + 1, "b")
+
+    def qubit_objects(order):
+        h = QuantumCircuit(*order)
+        allq = list(qb) + list(qa)
+        qs = [allq[i] for i in perm1[:n]]
+        lri.initialize(h, v.copy(), qubits=qs, opt_params=dict(keep))
+        return cx_count(h)
+    rec("static:qubit-objects:host(a,b)", est_b, lambda: qubit_objects((qa, qb)))
+    rec("static:qubit-objects:host(b,a)", est_b, lambda: qubit_objects((qb, qa)))
+
+    def slices():
+        h = QuantumCircuit(qb, qa)
+        qs = (qb[1:] + qa[:])[:n]
+        lri.initialize(h, v.copy(), qubits=qs, opt_params=dict(keep))
+        return cx_count(h)
+    rec("static:register-slices", est_b, slices)
+    return {"host": out, "n": n, "ests": [est_a, est_b]}
+
+
+def job_div(spec):
+    ep = spec["ep"]
+    if ep == "unitary":
+        return div_unitary(spec)
+    if ep == "isometry":
+        return div_isometry(spec)
+    if ep == "lowrank":
+        return div_lowrank(spec)
+    if ep == "lowrank-host":
+        return job_div_host(spec)
+    raise ValueError(ep)
+
+
 def run_job(job):
     sys.setrecursionlimit(10000)
     kind = job[0]
@@ -333,6 +898,8 @@ def run_job(job):
             return job_lowrank(*job[1:])
         if kind == "prim":
             return job_prim(*job[1:])
+        if kind == "div":
+            return job_div(job[1])
     except Exception as e:  # noqa: BLE001  (harness trouble must not look like a violation)
         import traceback
         return {"harness_exc": traceback.format_exc()[-1500:]}
@@ -368,6 +935,9 @@ def job_weight(job):
         return 4 ** job[1] * (8 if job[3] == "knill" else 1)
     if job[0] == "lowrank":
         return 2 ** job[1] * (64 if job[4] == "knill" else 1)
+    if job[0] == "div":
+        s = job[1]
+        return 4 ** s["n"] * (8 if "knill" in (s.get("scheme"), s.get("iso")) else 1) if s["ep"] != "lowrank" else 3 * 2 ** s["n"]
     return 1
 
 
@@ -543,6 +1113,8 @@ def model_counts(ctx, ops):
 
 def key_of(job):
     k = job[0]
+    if k == "div":
+        return div_key(job[1])
     if k == "unitary":
         _, n, dec, iso, a2, _ = job
         return f"unitary.cnot_count:{dec}:n={n}:iso={iso}:a2={int(a2)}"
@@ -555,6 +1127,10 @@ def key_of(job):
 
 
 def replay_of(job):
+    if job[0] == "div":
+        return {"job": ["div", job[1]], "how": "tools/props/c10.py run_job(('div', spec)): job_div rebuilds the input from spec (kind + seed -> "
+                                                "values, form -> container / dtype / layout, options and call forms as named) and calls "
+                                                "cnot_count in every call form, method='exact' and the public constructor"}
     return {"job": list(job), "how": "tools/props/c10.py run_job(job): Haar-random input from the seed (last-but-one field), "
                                      "cnot_count(..., method='estimate') vs transpile(circuit, ['u','cx'], 0).count_ops()['cx']"}
 
@@ -566,6 +1142,9 @@ def evaluate(ctx, jobs, results, struct):
         if "harness_exc" in res:
             raise RuntimeError("harness failure in %r: %s" % (job, res["harness_exc"]))
         kind = job[0]
+        if kind == "div":
+            evaluate_div(ctx, job, res, st)
+            continue
         ctx.count(kind + ":" + (job[2] if kind == "unitary" else job[3] if kind == "isometry" else job[4]))
         if "est_exc" in res or "cx_exc" in res:
             # Knill is documented not to work on one qubit
@@ -670,6 +1249,8 @@ def eval_lowrank(ctx, job, res, st, key, rep, nontrivial):
 
 def struct_op(job):
     k = job[0]
+    if k == "div":
+        return None         # needs the result (rank): div_struct_op, see oracle()
     if k == "unitary":
         _, n, dec, iso, a2, _ = job
         return {"op": "unitary", "dec": dec, "n": n, "iso": iso, "a2": a2}
@@ -688,6 +1269,8 @@ def oracle(ctx, jobs, with_model=True):
         op = struct_op(job)
         if job[0] == "lowrank" and job[4] != "knill" and "e" in res:
             op = {"op": "lowrank", "n": job[1], "p": res["p"], "e": res["e"], "iso": job[4], "uni": job[5]}
+        if job[0] == "div" and job[1]["ep"] != "lowrank-host" and "harness_exc" not in res:
+            op = div_struct_op(job[1], res)
         if op is not None:
             ops.append(op)
             idx.append(i)
@@ -778,6 +1361,364 @@ def probe_known(ctx):
     return jobs
 
 
+# --------------------------------------------------------------------------------------------------
+# input-diversity pass: case lists and evaluation (main process)
+# --------------------------------------------------------------------------------------------------
+
+DIV_UNITARY_VARIANTS = [
+    ("haar", "F", "element-type"), ("haar", "view", "element-type"), ("haar", "list", "element-type"),
+    ("haar", "tuple", "element-type"), ("haar", "npscalars", "element-type"), ("haar", "c64", "element-type"),
+    ("phase-1", "nd", "phase"), ("phase-i", "nd", "phase"), ("unit-phases", "nd", "phase"),
+    ("int-perm", "int64", "structured"), ("int-perm", "int-list", "structured"), ("real-orth", "f64", "structured"),
+    ("real-orth", "cz0", "structured"), ("real-orth", "negzero", "structured"), ("diag-pm", "f64", "structured"),
+]
+DIV_ISOMETRY_2D_VARIANTS = [
+    ("haar", "F", "element-type"), ("haar", "view", "element-type"), ("haar", "list", "element-type"), ("haar", "c64", "element-type"),
+    ("phase-1", "nd", "phase"), ("phase-i", "nd", "phase"), ("unit-phases", "nd", "phase"),
+    ("int-perm", "int64", "structured"), ("real-orth", "f64", "structured"), ("real-orth", "cz0", "structured"),
+    ("real-orth", "negzero", "structured"),
+]
+DIV_ISOMETRY_VEC_VARIANTS = [       # (kind, form, family, shape)
+    ("gauss", "nd", "element-type", "1d"), ("gauss", "view", "element-type", "1d"), ("gauss", "list", "element-type", "1d"),
+    ("gauss", "tuple", "element-type", "1d"), ("gauss", "npscalars", "element-type", "1d"), ("gauss", "c64", "element-type", "1d"),
+    ("phase-1", "nd", "phase", "1d"), ("phase-i", "nd", "phase", "1d"), ("unit-phases", "nd", "phase", "1d"),
+    ("eqmod", "nd", "scale", "1d"), ("headtail-start-3", "nd", "scale", "1d"), ("headtail-end-2.5", "nd", "scale", "1d"),
+    ("headtail-mixed-3", "nd", "scale", "1d"), ("headtail-end-5", "nd", "scale", "1d"),
+    ("int-basis", "int64", "structured", "1d"), ("int-basis", "f32", "structured", "1d"), ("real", "f64", "structured", "1d"),
+    ("real", "cz0", "structured", "1d"), ("real", "negzero", "structured", "1d"), ("neg-real", "f64", "structured", "1d"),
+    ("imag", "nd", "structured", "1d"), ("uniform", "f64", "structured", "1d"), ("sparse", "f64", "structured", "1d"),
+    ("one-subtree", "nd", "structured", "1d"),
+    ("gauss", "col", "element-type", "col"), ("gauss", "col-view", "element-type", "col"), ("gauss", "col-c64", "element-type", "col"),
+    ("phase-i", "col", "phase", "col"), ("eqmod", "col", "scale", "col"), ("headtail-mixed-2.5", "col", "scale", "col"),
+    ("headtail-mixed-6", "col", "scale", "col"),
+    ("int-basis", "int64", "structured", "col"), ("real", "f64", "structured", "col"),
+]
+DIV_LOWRANK_VARIANTS = [
+    ("gauss", "nd", "element-type"), ("gauss", "col", "element-type"), ("gauss", "col-view", "element-type"),
+    ("gauss", "list", "element-type"), ("gauss", "tuple", "element-type"), ("gauss", "npscalars", "element-type"),
+    ("gauss", "c64", "element-type"), ("gauss", "col-c64", "element-type"), ("gauss", "view", "element-type"),
+    ("phase-1", "nd", "phase"), ("phase-i", "list", "phase"), ("unit-phases", "nd", "phase"),
+    ("eqmod", "nd", "scale"), ("eqmod", "list", "scale"), ("headtail-start-3", "nd", "scale"), ("headtail-end-2.5", "nd", "scale"),
+    ("headtail-mixed-3", "list", "scale"), ("headtail-mixed-2.5", "col", "scale"), ("headtail-end-5", "nd", "scale"),
+    ("headtail-mixed-6", "list", "scale"),
+    ("int-basis", "int-list", "structured"), ("int-basis", "int64", "structured"), ("int-basis", "f32", "structured"),
+    ("real", "f64", "structured"), ("real", "f64-list", "structured"), ("real", "cz0", "structured"), ("real", "negzero", "structured"),
+    ("real", "negzero-list", "structured"), ("neg-real", "f64", "structured"), ("imag", "nd", "structured"),
+    ("uniform", "f64", "structured"), ("sparse", "f64", "structured"), ("one-subtree", "nd", "structured"),
+]
+DIV_PFORMS = ("list", "tuple", "reversed", "rotated-tuple", "npints")
+
+
+class _DivList:
+    def __init__(self, ctx):
+        self.ctx, self.jobs, self.k = ctx, [], 0
+
+    def add(self, **spec):
+        spec["seed"] = self.ctx.rng.getrandbits(30)
+        spec["rot"] = self.k           # which call form carries method='exact' / which constructor form builds the circuit
+        self.k += 1
+        self.jobs.append(("div", spec))
+
+
+def div_unitary_cases(ctx, out):
+    for n in (1, 2, 3, 4):
+        k = 0
+        for dec in ("qsd", "csd"):
+            for a2 in (True, False):
+                for iso in range(0, n + 1):
+                    if n >= 3 and not in_scope_unitary(dec, iso, a2):
+                        continue
+                    variants = DIV_UNITARY_VARIANTS if n <= 3 else [DIV_UNITARY_VARIANTS[(2 * k + j) % len(DIV_UNITARY_VARIANTS)] for j in (0, 1)]
+                    k += 1
+                    for kind, form, fam in variants:
+                        out.add(ep="unitary", n=n, dec=dec, iso=iso, a2=a2, kind=kind, form=form, fam=fam)
+
+
+def div_isometry_cases(ctx, out):
+    for n in (1, 2, 3, 4):
+        k = 0
+        for scheme in ("ccd", "csd", "knill"):
+            if n == 4 and scheme == "knill":
+                continue
+            for m in range(0, n + 1):
+                v2 = [(a, b, c, "2d") for a, b, c in DIV_ISOMETRY_2D_VARIANTS]
+                variants = (DIV_ISOMETRY_VEC_VARIANTS if m == 0 else []) + (v2 if m >= 1 else [])
+                if n == 4:
+                    variants = [variants[(3 * k + j) % len(variants)] for j in (0, 1, 2)]
+                k += 1
+                for kind, form, fam, shape in variants:
+                    out.add(ep="isometry", n=n, m=m, scheme=scheme, shape=shape, kind=kind, form=form, fam=fam)
+
+
+def div_lowrank_cases(ctx, out):
+    rng = ctx.rng
+    # A: element types / phase / scale / structured x n = 1..5 (+ a few n = 6), default rank and partition
+    for n in (1, 2, 3, 4, 5, 6):
+        for i, (kind, form, fam) in enumerate(DIV_LOWRANK_VARIANTS):
+            if n == 6 and (kind, form) not in (("gauss", "col"), ("gauss", "list"), ("eqmod", "nd"), ("headtail-mixed-2.5", "col"), ("real", "f64")):
+                continue
+            pairs = (("ccd", "qsd"), ("csd", "csd")) if n <= 4 else ((("ccd", "qsd"), ("csd", "csd"))[i % 2],)
+            for iso, uni in pairs:
+                out.add(ep="lowrank", n=n, iso=iso, uni=uni, kind=kind, form=form, fam=fam)
+    # B: prescribed Schmidt spectra across a cut, generic Schmidt vectors (estimate must follow the rank the construction uses)
+    for n, parts in ((3, ([0], [1])), (4, ([0, 1], [1, 3], [2])), (5, ([0, 1], [0, 2, 3])), (6, ([0, 1, 2], [1, 4]))):
+        for part in parts:
+            for tag in DIV_SPECTRA:
+                for iso, uni in (("ccd", "qsd"), ("csd", "csd")):
+                    out.add(ep="lowrank", n=n, part=list(part), iso=iso, uni=uni, kind="schmidt:" + tag, form=("nd", "list", "col")[out.k % 3],
+                            fam="scale", record=True, pform=DIV_PFORMS[out.k % len(DIV_PFORMS)])
+    # C: option / call forms at n = 3..6: every option alone, all non-default, lr on both sides of each power of two (and out
+    #    of range: documented to be ignored), every partition size in every container form
+    for n in (3, 4, 5, 6):
+        maxp = n // 2 + n % 2
+        maxr = 2 ** (n // 2)
+        sets = [{}]
+        for j, lr in enumerate(sorted(x for x in (-1, 1, 2, 3, 4, 5, 7, 8, 9) if x <= maxr + 1)):
+            sets.append({"lr": lr, "lrform": ("int", "np.int64")[j % 2]})
+        sets += [{"iso": "csd"}, {"uni": "csd"}, {"svd": "regular"}]
+        if n <= 4:
+            sets.append({"iso": "knill", "part": [0]})
+            sets.append({"iso": "knill", "uni": "csd", "lr": 1, "part": [n - 1]})
+        if n >= 4:
+            sets.append({"svd": "randomized", "lr": 2})
+        for size in range(1, maxp + 1):
+            part = sorted(rng.sample(range(n), size))
+            mr = 2 ** min(size, n - size)
+            sets.append({"part": part})
+            for lr in sorted({max(1, mr // 2), mr // 2 + 1, mr, mr + 1}):
+                sets.append({"part": sorted(rng.sample(range(n), size)), "lr": lr, "iso": "csd", "uni": "csd", "svd": "regular",
+                             "lrform": ("int", "np.int64")[lr % 2]})
+                if lr < mr:
+                    sets.append({"part": sorted(rng.sample(range(n), size)), "lr": lr, "uni": "csd"})
+        for j, s in enumerate(sets):
+            out.add(ep="lowrank", n=n, kind="gauss", form=("nd", "list", "col", "tuple")[j % 4], fam="call-form", record=True,
+                    pform=DIV_PFORMS[j % len(DIV_PFORMS)], **s)
+    # D: object / host forms
+    for n in (2, 3, 4, 5):
+        out.add(ep="lowrank-host", n=n, kind="gauss", form="nd", fam="call-form")
+
+
+def diversity_cases(ctx):
+    out = _DivList(ctx)
+    div_unitary_cases(ctx, out)
+    div_isometry_cases(ctx, out)
+    div_lowrank_cases(ctx, out)
+    return out.jobs
+
+
+def div_key(spec):
+    ep = spec["ep"]
+    if ep == "unitary":
+        o = f"unitary.cnot_count:{spec['dec']}:n={spec['n']}:iso={spec['iso']}:a2={int(spec['a2'])}"
+    elif ep == "isometry":
+        o = f"isometry.cnot_count:{spec['scheme']}:n={spec['n']}:m={spec['m']}:{spec.get('shape', '2d')}"
+    elif ep == "lowrank":
+        part = spec.get("part")
+        ptxt = "default" if part is None else "-".join(map(str, part)) + "(" + spec.get("pform", "list") + ")"
+        o = (f"lowrank.cnot_count:n={spec['n']}:partition={ptxt}:lr={spec.get('lr', 0)}({spec.get('lrform', 'int')}):"
+             f"iso={spec.get('iso', 'ccd')}:uni={spec.get('uni', 'qsd')}:svd={spec.get('svd', 'auto')}")
+    else:
+        o = f"LowRankInitialize-host:n={spec['n']}"
+    return f"diversity:{o}:{spec['kind']}:{spec['form']}"
+
+
+def div_allowed(spec, site, text):
+    """`text` = 'EXC <Type>: <message>' raised at `site` (est | exact | ctor).  Returns a tag when this is a documented
+    rejection or the clean refusal of a form the library does not claim, else None (= failure)."""
+    ep, form = spec["ep"], spec["form"]
+    typ = text[4:].split(":")[0]
+    if form in DIV_LISTLIKE and typ in ("AttributeError", "TypeError") and (ep == "isometry" or (ep == "unitary" and site == "est")):
+        return "unsupported-form-raises-" + typ      # ndarray-typed functions (.shape / .astype); unitary() itself accepts lists
+    if site != "est" and form in DIV_C64:
+        # complex64 values ARE a slightly non-normalised input: the validation messages of unitary() / decompose() /
+        # Initialize / UnitaryGate are accepted, and so is qiskit's two-qubit Weyl decomposition giving up on the 4x4 block
+        # isometry.decompose(state_2q, 'csd') extends such a state to (robustness of decompose, not a CNOT-count claim)
+        if typ == "ValueError" and ("unitary" in text.lower() or "non orthonormal" in text or "amplitudes-squared" in text):
+            return "reduced-precision-rejected-ValueError"
+        if typ == "QiskitError" and "TwoQubitWeylDecomposition" in text:
+            return "reduced-precision-rejected-QiskitError(TwoQubitWeylDecomposition)"
+        if typ == "TranspilerError" and "unable to synthesize" in text:
+            return "reduced-precision-rejected-in-definition(TranspilerError)"      # Initialize's norm check, raised inside .definition
+    if site != "est" and div_class(spec) == "structured" and typ == "QiskitError" and "TwoQubitWeylDecomposition" in text:
+        # real / structured blocks: qiskit's Weyl decomposition sporadically fails to diagonalise (about 1 real orthogonal 8x8 in
+        # 300); outside general position, same family as the A.2 fallback listed in UNREACHED_JUSTIFIED
+        return "outside-equality:qiskit-TwoQubitWeylDecomposition-gave-up"
+    if ep == "isometry" and site != "est" and spec["scheme"] == "knill" and spec["n"] < 2 and typ == "ValueError" and "Knill" in text:
+        return "knill-one-qubit-rejected-ValueError"
+    if ep == "lowrank" and site == "ctor" and form in ("col", "col-view", "col-c64") and typ in ("TypeError", "ValueError"):
+        return "unsupported-form-raises-" + typ      # LowRankInitialize documents "list of complex", not a (2^n, 1) column
+    return None
+
+
+def div_struct_op(spec, res):
+    """driver op of the (shape, option) tuple of a class-(i) case (None: not modelled / not claimed)"""
+    if div_class(spec) != "generic" or "skipped" in res:
+        return None
+    ep = spec["ep"]
+    if ep == "unitary":
+        return {"op": "unitary", "dec": spec["dec"], "n": spec["n"], "iso": spec["iso"], "a2": spec["a2"]}
+    if ep == "isometry" and spec["scheme"] != "knill":
+        return {"op": "isometry", "scheme": spec["scheme"], "n": spec["n"], "m": spec["m"]}
+    if ep == "lowrank" and spec.get("iso", "ccd") != "knill" and "e" in res:
+        return {"op": "lowrank", "n": spec["n"], "p": res["p"], "e": res["e"], "iso": spec.get("iso", "ccd"), "uni": spec.get("uni", "qsd")}
+    return None
+
+
+def evaluate_div(ctx, job, res, st):
+    spec = job[1]
+    key, rep, ep, cls = div_key(spec), replay_of(job), spec["ep"], div_class(spec)
+    ctx.count(f"diversity:{ep}:{spec['fam']}")
+    ctx.count(f"diversity:{ep}:{spec['fam']}:{spec['kind'].split(':')[0]}/{spec['form']}")
+    if ep == "lowrank-host":
+        for name, want, got in res["host"]:
+            ctx.count("diversity:lowrank-host:" + name)
+            if got == want:
+                ctx.ok(f"{key}:{name}", True, None)
+            else:
+                ctx.fail(f"{key}:{name}:expected={want}:observed={got}", "CNOT count of the circuit built through this object / host form "
+                         "differs from lowrank.cnot_count for the same options", dict(rep, observed=res))
+        return
+    if "skipped" in res:
+        ctx.count("diversity:skipped:near-rank-cut")
+        return
+    n = spec["n"]
+    obs = dict(rep, observed={k: v for k, v in res.items() if k not in ("enc", "est_leaves")})
+    failed = False
+
+    def fail(k, detail):
+        nonlocal failed
+        failed = True
+        ctx.fail(k, detail, obs)
+
+    def site_value(site, v, label):
+        """None when the site raised (allowed outcomes are counted, others fail)"""
+        if not isinstance(v, str):
+            return v
+        tag = div_allowed(spec, site, v)
+        if tag:
+            ctx.count(f"diversity:{ep}:{spec['form']}:{tag}")
+        else:
+            fail(f"{key}:{label}-raises", v)
+        return None
+
+    if not res.get("input_unchanged", True):
+        fail(f"{key}:caller-input-mutated", "the array / list / partition handed in was modified by the library")
+    est_ref = res["est_ref"]
+    if isinstance(est_ref, str):
+        fail(f"{key}:estimate-raises:ndarray-reference", est_ref)
+        return
+    ests = {}
+    for call, v in res["est"].items():
+        v = site_value("est", v, "estimate:call=" + call)
+        if v is not None:
+            ests[call] = v
+            ctx.count(f"diversity:{ep}:call-form:estimate:{call}")
+    cx = site_value("ctor", res["cx"], "synthesis:ctor=" + res["ctor_call"])
+    if cx is None:
+        if not isinstance(res.get("cx_ref", "EXC"), str):
+            cx = res["cx_ref"]      # the form was refused by the constructor: count for the same values as complex128 ndarray
+    else:
+        ctx.count(f"diversity:{ep}:call-form:constructor:{res['ctor_call']}")
+    exact = site_value("exact", res["exact"], "exact-method:call=" + res["exact_call"]) if "exact" in res else None
+    # every call form and every container / dtype of the same values gives the same estimate (both classes)
+    for call, v in ests.items():
+        if v != est_ref:
+            fail(f"{key}:call={call}:estimate={v}:ndarray-positional={est_ref}", "the estimate depends on the call form / on the "
+                 "container or dtype of the same values")
+    if failed:
+        return
+    est = est_ref
+    nontrivial = n >= (3 if ep == "unitary" else 2)
+    sample = {"call": key, "estimate": est, "circuit_cx": cx, "structural": st, "calls": sorted(ests)}
+    if cls == "structured":
+        ctx.count(f"diversity:{ep}:outside-equality")
+        if cx is not None:
+            ctx.count("diversity:outside-equality:estimate" + ("==" if est == cx else ">" if est > cx else "<") + "circuit")
+        if exact is not None and cx is not None and exact != cx:
+            ctx.count("diversity:outside-equality:exact-method!=circuit")
+        shape_only = ep == "unitary" or (ep == "isometry" and spec["scheme"] != "knill")
+        if shape_only and est != res["est_generic"]:
+            fail(f"{key}:estimate={est}:generic-same-shape={res['est_generic']}", "the estimate of a structured / real input differs "
+                 "from the estimate of a generic input of the same shape and options (it is a function of shape and options only)")
+        elif ep == "isometry" and spec["scheme"] == "ccd" and spec["m"] == n and cx is not None and est < cx:
+            fail(f"{key}:upper-bound-violated:diff={est - cx:+d}", f"estimate {est} < circuit {cx}")
+        elif not failed:
+            ctx.ok(key, nontrivial, sample)
+        return
+    # class (i): generic complex values
+    if not ests:        # the estimate refused this (unclaimed) form in every call form; nothing to compare
+        ctx.ok(key + ":form-refused", False, None)
+        return
+    if exact is not None and cx is not None:
+        if exact != cx:
+            fail(f"{key}:exact-method={exact}:circuit={cx}", "cnot_count(..., method='exact') differs from the transpiled count of "
+                 "the circuit built for the same input")
+        else:
+            ctx.ok(key + ":exact-method", nontrivial, None)
+    if cx is None:      # Knill on one qubit: synthesis documented not to work, estimate takes its no-cx branch
+        ctx.ok(key + ":no-circuit", False, None)
+        return
+    if ep == "unitary":
+        if st is not None and cx != st:
+            ctx.fail(f"{key}:circuit={cx}:structural={st}", "transpiled circuit differs from the structural count", obs, kind="assumption")
+        elif not in_scope_unitary(spec["dec"], spec["iso"], spec["a2"]):
+            ctx.count("out-of-scope-option-combination")
+        elif est != cx:
+            fail(f"{key}:diff={est - cx:+d}", f"estimate {est} != circuit {cx} (structural {st})")
+        elif not failed:
+            ctx.ok(key, nontrivial, sample)
+    elif ep == "isometry":
+        full_ccd = spec["scheme"] == "ccd" and spec["m"] == n
+        if st is not None and ((cx != st) if not full_ccd else (cx > st)):
+            ctx.fail(f"{key}:circuit={cx}:structural={st}", "transpiled circuit differs from the structural count", obs, kind="assumption")
+        elif full_ccd and est < cx:
+            fail(f"{key}:upper-bound-violated:diff={est - cx:+d}", f"estimate {est} < circuit {cx}")
+        elif not full_ccd and est != cx:
+            fail(f"{key}:diff={est - cx:+d}", f"estimate {est} != circuit {cx} (structural {st})")
+        elif not failed:
+            ctx.ok(key, nontrivial, sample)
+    else:
+        if "rank" in res:
+            ctx.count("diversity:lowrank:rank=%d-of-%d" % (res["rank"], 2 ** min(res["p"], n - res["p"])))
+        if est == cx or ("enc" in res and "rank" in res):
+            if failed:
+                return
+            pseudo = ("lowrank", n, spec.get("part"), spec.get("lr", 0), spec.get("iso", "ccd"), spec.get("uni", "qsd"), spec["seed"])
+            eval_lowrank(ctx, pseudo, dict(res, est=est, cx=cx, rank=res.get("rank", 0)), st, key, obs, nontrivial)
+        else:
+            fail(f"{key}:diff={est - cx:+d}", f"estimate {est} != circuit {cx}")
+
+
+def diversity_ties(ctx, jobs, results):
+    """the (shape, option) tuples of the class-(i) diversity cases, tied to the driver: count of the REAL circuit built from
+    the diverse input vs structural count of the model; low-rank: estimate, estimate leaves and construction dispatch."""
+    seen = set()
+    for job, res in zip(jobs, results):
+        if job[0] != "div" or job[1]["ep"] == "lowrank-host" or "harness_exc" in res:
+            continue
+        spec = job[1]
+        op = div_struct_op(spec, res)
+        if op is None or isinstance(res.get("cx"), str):
+            continue
+        if op["op"] == "unitary":
+            impl = [str(res["cx"])]
+        elif op["op"] == "isometry":
+            if spec["scheme"] == "ccd" and spec["m"] == spec["n"]:
+                continue        # stated exception: upper bound only
+            impl = [str(res["cx"])]
+        else:
+            if "enc" not in res or isinstance(res["est"].get("pos"), str):
+                continue
+            impl = ["est %d" % res["est"]["pos"]] + sorted("leaf %s %d" % (t, v) for t, v in res["est_leaves"]) \
+                + sorted("enc %s" % t for t, _, _ in res["enc"])
+        k = json.dumps(op, sort_keys=True) + "|" + "|".join(impl)
+        if k in seen:
+            continue
+        seen.add(k)
+        ctx.tie(op, impl, label="diversity " + div_key(spec)[:160])
+        ctx.count("diversity:tie:" + op["op"])
+
+
 def run(ctx):
     quick = ctx.quick
     gen_ties(ctx, big=not quick)
@@ -788,11 +1729,17 @@ def run(ctx):
     jobs += lowrank_cases(ctx, 4 if quick else 5, 8 if quick else 9, 4 if quick else 5)
     jobs += probe_known(ctx)
     jobs += boundary_cases(ctx)
+    jobs += diversity_cases(ctx)
     results = oracle(ctx, jobs)
     shape_ties(ctx, jobs, results)
+    diversity_ties(ctx, jobs, results)
     ctx.notes.append("scope: (qsd, apply_a2=False, iso>0) and (csd, iso>0) are not option combinations the property speaks of; "
                      "they are synthesised and their shape is tied, but estimate != circuit there is only counted "
                      "(branch_histogram 'out-of-scope:estimate!=circuit')")
+    ctx.notes.append("input forms (diversity:*): generic values in other containers / dtypes / layouts / phases / scales must give "
+                     "estimate == circuit; excluded as legitimately different: amplitude tails below ~1e-4 (qiskit snaps two-qubit blocks within "
+                     "fidelity 1-1e-9 onto cheaper classes), exactly repeated Schmidt coefficients (non-unique SVD), Schmidt coefficients "
+                     "inside (3.3e-8, 3e-7) around the 1e-7 rank cut, real / integer / basis inputs (counted as outside-equality)")
     ctx.notes.append("general position: Haar-random unitaries / complex Gaussian states only; structured inputs change qiskit's "
                      "multiplexer simplification and two-qubit synthesis and are outside the property")
 
@@ -812,8 +1759,9 @@ def search(ctx, hints):
     jobs += unitary_cases(ctx, 6, 5)
     jobs += isometry_cases(ctx, 6, 3)
     jobs += lowrank_cases(ctx, 4, 8, 4)
+    jobs += diversity_cases(ctx)
     oracle(ctx, jobs, with_model=False)
 
 
 def replay(ctx, payload):
-    oracle(ctx, [tuple(payload["replay"]["job"])])
+    oracle(ctx, [tuple(payload["replay"]["job"])])      # ("div", spec) jobs: the spec dict survives the JSON round trip
